@@ -112,15 +112,16 @@ def dotted(e) -> str | None:
 
 
 class Module:
-    def __init__(self, root: Path, path: Path, attr_map=None, class_map=None):
+    def __init__(self, root: Path, path: Path, attr_map=None, class_map=None, tree=None):
         self.path = path
         self.rel = str(path.relative_to(root))
         self.source = path.read_text()
         self.sha256 = hashlib.sha256(self.source.encode()).hexdigest()
         try:
-            self.tree = ast.parse(self.source, filename=str(path))
+            self.tree = tree if tree is not None else ast.parse(self.source, filename=str(path))
         except SyntaxError as e:  # pragma: no cover
             raise AnchorError(f'{self.rel}: does not parse: {e}') from e
+        precanon = tree is not None
         from .normalize import normalize
 
         from .normalize import desugar_walrus
@@ -135,35 +136,10 @@ class Module:
             from .normalize import rename_attributes
 
             rename_attributes(self.tree, attr_map)
-        deannotate(self.tree)
-        canonical_imports(self.tree)
-        augment(self.tree)
-        from .normalize import canonical_tests
+        from .normalize import canonicalize
 
-        from .normalize import canonical_operands, canonical_regions, canonical_while
-
-        for _ in range(3):  # nested regions: the walk sees a block before its rewritten children
-            if not canonical_regions(self.tree):
-                break
-        canonical_while(self.tree)
-        canonical_operands(self.tree)
-        canonical_tests(self.tree)
-        from .normalize import canonical_queue_calls, expand_ternary_assignments
-
-        canonical_queue_calls(self.tree)
-        from .normalize import canonical_dicts
-
-        canonical_dicts(self.tree)
-        from .normalize import canonical_args
-
-        canonical_args(self.tree)
-        from .normalize import canonical_suppress
-
-        canonical_suppress(self.tree)
-        from .normalize import recompose
-
-        recompose(self.tree)
-        expand_ternary_assignments(self.tree)
+        if not precanon:  # the tree handed over by Repo is in canonical form already
+            canonicalize(self.tree)
         if not os.environ.get('MPSA_NO_RENAME_TOLERANCE'):
             from .anchors import load_anchors as _la
             from .normalize import propagate_new_constants
@@ -330,6 +306,7 @@ class Repo:
         # attributes renamed consistently across the package are read under their recorded names
         self.attrs_restored: dict = {}
         self.classes_restored: dict = {}
+        pretrees: dict = {}
         if not os.environ.get('MPSA_NO_RENAME_TOLERANCE'):
             from .anchors import load_anchors
             from .normalize import attribute_renames, attribute_signatures
@@ -345,6 +322,10 @@ class Repo:
                         t_ = ast.parse(p.read_text())
                     except SyntaxError:
                         continue  # reported by Module below
+                    from .normalize import canonicalize as _canon
+
+                    _canon(t_)  # signatures are taken from the canonical forms, as in anchors.json
+                    pretrees[p] = t_
                     cur_attrs[str(p.relative_to(self.root))] = attribute_signatures(t_)
                     cur_cls[str(p.relative_to(self.root))] = class_signatures(t_)
                     words |= identifiers(t_)
@@ -353,7 +334,7 @@ class Repo:
                 if ref_cls:
                     self.classes_restored = class_renames(cur_cls, ref_cls, words, set(load_anchors().get('__words__') or ()))
         for p in sorted(pkg.rglob('*.py')):
-            m = Module(self.root, p, attr_map=self.attrs_restored, class_map=self.classes_restored)
+            m = Module(self.root, p, attr_map=self.attrs_restored, class_map=self.classes_restored, tree=pretrees.get(p))
             m.repo = self
             self.modules[m.rel] = m
 
